@@ -143,8 +143,16 @@ class _Handle:
         pass
 
     def tell(self):
-        # number of bytes written: taken from the symbolic size supply and recorded
-        sz = self.fs._next_written_size()
+        # number of (uncompressed) bytes written: a property of the logical Manifest if the
+        # scenario says so (size_of), else taken from the symbolic size supply; recorded
+        key = self.path
+        for suf in ('.gz', '.bz2', '.lzma', '.xz'):
+            if key.endswith(suf):
+                key = key[:-len(suf)]
+        if key in self.fs.size_of:
+            sz = self.fs.size_of[key]
+        else:
+            sz = self.fs._next_written_size()
         self.node.size = sz
         return sz
 
@@ -164,6 +172,7 @@ class ModelFS:
         self.log = []                 # (op, path) for every mutation of the tree
         self.reads = []               # Manifest loads: (path, verified?) ghost log
         self.written_sizes = [*written_sizes]
+        self.size_of = {}             # logical Manifest path -> uncompressed size
         self._wtok = 0
         self.walk_fuel = walk_fuel
         self.ncalls = 0
